@@ -310,6 +310,39 @@ def merge_split_case(ctx, idx, rng):
         _rel(ctx, 'merge_mpo.dense', W, wantW, np.linalg.norm(wantW), {'W0': W0, 'W1': W1})
 
 
+def empty_bond_case(ctx, idx, rng):
+    """Operands with an interior bond of dimension ZERO (a legal representation of the zero state / zero operator; the library itself produces such bonds
+    when it splits an exactly vanishing tensor pair): every arithmetic operation and both matrix forms must treat them as zero."""
+    L = int(rng.integers(2, 5))
+    d = int(rng.choice([2, 3]))
+    layout = str(rng.choice(['zero', 'unsorted', 'pairs']))
+    qd, a, b, lab = _pair_mps(rng, L, d, layout)
+    k = int(rng.integers(1, L))
+    z = ptn.MPS(qd, [np.array(q, copy=True) for q in a.qD], fill='postpone')
+    z.qD[k] = np.zeros(0, dtype=int)
+    z.A = [np.zeros((d, len(z.qD[i]), len(z.qD[i + 1])), dtype=complex) for i in range(L)]
+    A = gen.rand_mpo(rng, qd, L, Dmax=3, kind='complex')
+    Z = ptn.MPO(qd, [np.array(q, copy=True) for q in A.qD], fill='postpone')
+    kz = int(rng.integers(1, L))
+    Z.qD[kz] = np.zeros(0, dtype=int)
+    Z.A = [np.zeros((d, d, len(Z.qD[i]), len(Z.qD[i + 1])), dtype=complex) for i in range(L)]
+    va, mA = refs.dense_state(a.A), refs.dense_operator(A.A)
+    ctx.case(('empty-bond', f'L{L}', f'd{d}', layout, f'k{k}'), sample={'L': L, 'd': d, 'empty_mps_bond': k, 'empty_mpo_bond': kz})
+    detail = {'L': L, 'qd': qd, 'empty_mps_bond': k, 'empty_mpo_bond': kz, 'qD_a': a.qD, 'qD_A': A.qD}
+    sa, sA = ts(a), ts(A)
+    with monitor.write_protected(a, z, A, Z):
+        _rel(ctx, 'empty-bond.as_vector', z.as_vector(), 0 * va, 1.0, detail)
+        _rel(ctx, 'empty-bond.mps-add', refs.dense_state((a + z).A), va, sa, detail)
+        _rel(ctx, 'empty-bond.mps-sub', refs.dense_state((z - a).A), -va, sa, detail)
+        _rel(ctx, 'empty-bond.apply[zero state]', refs.dense_state(ptn.apply_operator(A, z).A), 0 * va, 1.0, detail)
+        _rel(ctx, 'empty-bond.apply[zero operator]', refs.dense_state(ptn.apply_operator(Z, a).A), 0 * va, 1.0, detail)
+        _rel(ctx, 'empty-bond.mpo-add', refs.dense_operator((A + Z).A), mA, sA, detail)
+        _rel(ctx, 'empty-bond.mpo-matmul', refs.dense_operator((Z @ A).A), 0 * mA, 1.0, detail)
+        _rel(ctx, 'empty-bond.as_matrix-dense', Z.as_matrix(), 0 * mA, 1.0, detail)
+        sm = Z.as_matrix(sparse_format=True)
+        ctx.ok('empty-bond.as_matrix-sparse', sparse.issparse(sm) and sm.shape == mA.shape and sm.nnz == 0, 'sparse form of a zero operator with an empty bond', detail)
+
+
 def large_case(ctx, idx, rng):
     """Sums, differences and operator application beyond the dense reach, compared through probe overlaps."""
     from .. import large
@@ -412,6 +445,7 @@ SPEC = {
         Workload('mpo-arith', mpo_arith, quick=1000, thorough=128000),
         Workload('apply', apply_case, quick=600, thorough=60000),
         Workload('identity', identity_case, quick=120, thorough=8000),
+        Workload('empty-bond', empty_bond_case, quick=120, thorough=8000),
         Workload('from-vector', from_vector_case, quick=250, thorough=48000),
         Workload('large', large_case, quick=80, thorough=8000),
         Workload('merge-split', merge_split_case, quick=600, thorough=64000),
